@@ -325,6 +325,8 @@ class PeerConnection:
         """
         self._direction: int = peer_direction
         self._interrupt_fileno: int = interrupt_fileno
+        # timestamp of the socket having become connected
+        self._connected: int = 0
         self._last_msg: int = 0
         self._last_read: int = 0
         # timestamp of last DWR sent, cleared after DWA
@@ -387,6 +389,7 @@ class PeerConnection:
         go through a transition of CONNECTING - CONNECTED - READY and will not
         handle any messages until the READY state has been reached."""
 
+        self.reset_connected()
         self.reset_last_message()
         self.reset_last_read()
         self._read_thread.start()
@@ -412,8 +415,15 @@ class PeerConnection:
                     f"cannot process message right now, expecting a CEA, "
                     f"ignoring")
                 return
+            # the awaited CER/CEA has arrived, the wait for one starts over
+            self.reset_connected()
 
         self.message_handler(self, msg)
+
+    @property
+    def connected_since(self) -> int:
+        """Seconds since the connection socket became connected."""
+        return int(time.time()) - self._connected
 
     @property
     def is_receiver(self) -> bool:
@@ -502,6 +512,13 @@ class PeerConnection:
     def remove_out_bytes(self, sent_bytes: int):
         """Remove a given amount of bytes from outgoing buffer."""
         self._write_buffer = self._write_buffer[sent_bytes:]
+
+    def reset_connected(self):
+        """Mark that the connection socket has become connected.
+
+        Starts the timer that limits the wait for the CER/CEA exchange.
+        """
+        self._connected = int(time.time())
 
     def reset_last_message(self):
         """Mark that a full diameter message has been received.
